@@ -196,12 +196,27 @@ func (i *interpreter) tryMerge(fr *frame, instr *ssa.If, c *sym.Term) (continuat
 		i.mergeAbort("nesting too deep")
 	} else {
 		// nested branch: if one side is infeasible under the path condition alone (decided
-		// without the solver), just follow the other side
-		if r, ok := i.feasibleQuick(c); ok && r == sym.Unsat {
+		// without the solver), just follow the other side. The outcome depends on the worker's
+		// cache, so it is logged in the merge decision and replayed from there.
+		var choice int64
+		if i.mergeReplay {
+			if i.mergeLogPos < len(i.mergeLog) {
+				choice = i.mergeLog[i.mergeLogPos]
+			}
+			i.mergeLogPos++
+		} else {
+			if r, ok := i.feasibleQuick(c); ok && r == sym.Unsat {
+				choice = 1
+			} else if r, ok := i.feasibleQuick(i.ctx.Not(c)); ok && r == sym.Unsat {
+				choice = 2
+			}
+			i.mergeLog = append(i.mergeLog, choice)
+		}
+		switch choice {
+		case 1:
 			fr.prevBlock, fr.block = fr.block, fr.block.Succs[1]
 			return kJump, true
-		}
-		if r, ok := i.feasibleQuick(i.ctx.Not(c)); ok && r == sym.Unsat {
+		case 2:
 			fr.prevBlock, fr.block = fr.block, fr.block.Succs[0]
 			return kJump, true
 		}
@@ -286,6 +301,15 @@ func (i *interpreter) tryMerge(fr *frame, instr *ssa.If, c *sym.Term) (continuat
 		}()
 	}
 
+	if top {
+		i.mergeReplay = replay
+		i.mergeLogPos = 0
+		if replay {
+			i.mergeLog = i.prefix[i.dpos].Excl
+		} else {
+			i.mergeLog = nil
+		}
+	}
 	i.specDepth++
 	runArm := func(cond *sym.Term, succ *ssa.BasicBlock) armResult {
 		i.specGuard = append(i.specGuard, cond)
@@ -488,7 +512,7 @@ func (i *interpreter) tryMerge(fr *frame, instr *ssa.If, c *sym.Term) (continuat
 	}
 	if top {
 		i.Stats.Merges++
-		d := Decision{Kind: "merge"}
+		d := Decision{Kind: "merge", Excl: append([]int64{}, i.mergeLog...)}
 		i.decs = append(i.decs, d)
 		if replay {
 			i.dpos++
